@@ -246,7 +246,7 @@ def main(run):
     byid = {c["id"]: c for c in cases}
     ob = {o["id"]: o for o in obs}
     seen = {}
-    for cid, code in mism:
+    for cid, code in [m for m in mism if m[1] != 7]:
         c, o = byid[cid], ob[cid]
         sig = {"kind": "lang-case", "symptom": SYMPTOM_L[code], "fault": c.get("fault"), "position": c.get("position")}
         key = (sig["symptom"], sig["fault"])
@@ -255,6 +255,7 @@ def main(run):
             continue
         run.report(sig, {"text": c["text"], "inject": c["inject"], "rule": c["rule"], "observation": {k: o.get(k) for k in ("class", "ret", "cites", "errmsg", "crash")}, "disagreement": LCODES[code]},
                    "C09: fault '%s' at '%s': %s (observed class=%s%s) — %s" % (c.get("fault"), c.get("position"), LCODES[code], o["class"], " CRASH" if o.get("crash") else "", c["text"].replace("\n", " | ")[:300]))
+    report_reader(run, PID, mism, lambda i: byid[i]["text"])
     escaped = [o for o in obs if o["class"] == "panic" or o.get("crash")]
     # (A') termination scenarios with driver-stated expectations
     tcs = []
